@@ -29,6 +29,7 @@ import (
 	"sort"
 	"strconv"
 	"strings"
+	"unsafe"
 
 	"github.com/parquet-go/parquet-go"
 
@@ -664,11 +665,25 @@ func c09WriteFile(s *c09Schema, rows []parquet.Row, pageBuf int, extra ...parque
 	return parquet.OpenFile(bytes.NewReader(out.Bytes()), int64(out.Len()))
 }
 
+// one part of an element of the plan: rows [Off, Off+Len) of input In
+type c09Part struct{ In, Off, Len int }
+
 type c09GroupsInfo struct {
 	typ      string
 	segments int
 	ranges   int
 	pages    int
+	read     []c09Out // the rows Rows() delivered
+	// the refinement plan (only for !Dedupe && !NoRefine)
+	refine    bool        // the plan was observed and the model's inputs were probed
+	tooBig    bool        // not observed: too many rows for the oracle
+	plan      [][]c09Part // the elements of rowGroupSegments as Go built them, parts sorted by input
+	planBad   string      // a piece whose rows of one input are not an ascending contiguous range
+	planErr   string      // the plan could not be observed
+	layouts   [][][]int   // per input, per sorting column: rows of each page (offset index)
+	cuts      []bool      // per input: newCutLookups returns lookups for the first sorting column
+	converted int         // inputs that ConvertRowGroup wrapped (0 expected: same schema)
+	indexOdd  string      // an input whose column index and offset index disagree on the number of pages
 }
 
 // c09Inspect reads the shape of the merged row group (unexported types, by reflection on type names only).
@@ -693,6 +708,249 @@ func c09Inspect(rg parquet.RowGroup) (info c09GroupsInfo) {
 		}
 	}
 	return
+}
+
+// ---- the refinement plan: what Go built, what the model is given ---------------
+
+const (
+	c09RefineMaxInput = 6000  // rows of one input
+	c09RefineMaxTotal = 20000 // rows of all inputs
+)
+
+func c09RefineEligible(cs *c09Case) (eligible, tooBig bool) {
+	if cs.Kind != "groups" || cs.Dedupe || cs.NoRefine {
+		return false, false
+	}
+	total := 0
+	for _, in := range cs.Inputs {
+		if len(in) > c09RefineMaxInput {
+			return false, true
+		}
+		total += len(in)
+	}
+	if total > c09RefineMaxTotal {
+		return false, true
+	}
+	return true, false
+}
+
+// c09PlanSegments returns the field `segments` of a *sortedSegmentRowGroup
+// (unexported: reflect + unsafe); ok = false when rg is not one.
+func c09PlanSegments(rg parquet.RowGroup) (segs []parquet.RowGroup, ok bool, err string) {
+	v := reflect.ValueOf(rg)
+	if v.Kind() != reflect.Ptr || v.IsNil() {
+		return nil, false, ""
+	}
+	e := v.Elem()
+	if e.Kind() != reflect.Struct || e.Type().Name() != "sortedSegmentRowGroup" {
+		return nil, false, ""
+	}
+	f := e.FieldByName("segments")
+	if !f.IsValid() || !f.CanAddr() {
+		return nil, true, "sortedSegmentRowGroup has no addressable field `segments`"
+	}
+	segs, isSlice := reflect.NewAt(f.Type(), unsafe.Pointer(f.UnsafeAddr())).Elem().Interface().([]parquet.RowGroup)
+	if !isSlice {
+		return nil, true, fmt.Sprintf("the field `segments` has type %s", f.Type())
+	}
+	return segs, true, ""
+}
+
+// c09PieceOf derives the parts of one element of the plan from the rows it
+// delivers: for every input present (input, smallest seq, count); bad != ""
+// when the rows of an input are not an ascending contiguous range.
+func c09PieceOf(rows []c09Out) (parts []c09Part, bad string) {
+	at := map[int]int{}
+	for p, o := range rows {
+		if o.Bad != "" {
+			return nil, fmt.Sprintf("row %d: %s", p, o.Bad)
+		}
+		i, seen := at[o.In]
+		if !seen {
+			at[o.In] = len(parts)
+			parts = append(parts, c09Part{In: o.In, Off: o.Seq, Len: 1})
+			continue
+		}
+		if want := parts[i].Off + parts[i].Len; o.Seq != want {
+			return nil, fmt.Sprintf("row %d of the piece is row %d of input %d, after rows %d..%d of that input", p, o.Seq, o.In, parts[i].Off, want-1)
+		}
+		parts[i].Len++
+	}
+	sort.Slice(parts, func(a, b int) bool { return parts[a].In < parts[b].In })
+	return parts, ""
+}
+
+// c09GoPlan observes the plan of a merged row group: the rows of every
+// element of rowGroupSegments, read through its own Rows().
+func c09GoPlan(s *c09Schema, merged parquet.RowGroup) (plan [][]c09Part, bad, err string) {
+	segs, isSeg, e := c09PlanSegments(merged)
+	if e != "" {
+		return nil, "", e
+	}
+	if !isSeg {
+		segs = []parquet.RowGroup{merged}
+	}
+	for n, seg := range segs {
+		rr := seg.Rows()
+		out, _, f := c09ReadAll(s, rr, []int{97})
+		rr.Close()
+		if f != "" {
+			return nil, "", fmt.Sprintf("reading element %d of the plan (%T): %s", n, seg, f)
+		}
+		rows := c09Flat(out)
+		if int64(len(rows)) != seg.NumRows() {
+			return nil, fmt.Sprintf("element %d of the plan (%T): NumRows() = %d but Rows() delivered %d rows", n, seg, seg.NumRows(), len(rows)), ""
+		}
+		parts, b := c09PieceOf(rows)
+		if b != "" {
+			return nil, fmt.Sprintf("element %d of the plan (%T): %s", n, seg, b), ""
+		}
+		if len(parts) > 0 {
+			plan = append(plan, parts)
+		}
+	}
+	return plan, "", ""
+}
+
+func c09PlanTok(plan [][]c09Part) string {
+	if len(plan) == 0 {
+		return "="
+	}
+	pcs := make([]string, len(plan))
+	for i, pc := range plan {
+		items := make([]string, len(pc))
+		for j, p := range pc {
+			items[j] = fmt.Sprintf("%d.%d.%d", p.In, p.Off, p.Len)
+		}
+		pcs[i] = strings.Join(items, ",")
+	}
+	return strings.Join(pcs, "/")
+}
+
+// c09CanonPlan sorts the parts of every piece of a model answer by input id
+// (the model lists the participants of a merged region in min-key order).
+func c09CanonPlan(ans string) string {
+	if ans == "=" || ans == "" {
+		return ans
+	}
+	var plan [][]c09Part
+	for _, pc := range strings.Split(ans, "/") {
+		var parts []c09Part
+		for _, it := range strings.Split(pc, ",") {
+			var p c09Part
+			if n, err := fmt.Sscanf(it, "%d.%d.%d", &p.In, &p.Off, &p.Len); n != 3 || err != nil {
+				return ans
+			}
+			parts = append(parts, p)
+		}
+		sort.SliceStable(parts, func(a, b int) bool { return parts[a].In < parts[b].In })
+		plan = append(plan, parts)
+	}
+	return c09PlanTok(plan)
+}
+
+// c09SortingLeaf: index of the leaf column of sorting column j (the schema
+// columns are sorted by name: k0, k1, ..., p_in, p_seq, p_tag).
+func (s *c09Schema) sortingLeaf(j int) int {
+	name := fmt.Sprintf("k%d", j)
+	for i, path := range s.schema.Columns() {
+		if len(path) == 1 && path[0] == name {
+			return i
+		}
+	}
+	return -1
+}
+
+// c09ProbeIndexes reads, on the row groups the planner sees (every input
+// wrapped with ConvertRowGroup as MergeRowGroups does), the page layout of
+// every sorting column (offset index) and evaluates the conditions under which
+// newCutLookups returns lookups for the first sorting column.
+func c09ProbeIndexes(s *c09Schema, groups []parquet.RowGroup, info *c09GroupsInfo) {
+	info.layouts = make([][][]int, len(groups))
+	info.cuts = make([]bool, len(groups))
+	for i, rg := range groups {
+		seen := rg
+		if conv, err := parquet.Convert(s.schema, rg.Schema()); err == nil {
+			seen = parquet.ConvertRowGroup(rg, conv)
+		}
+		if seen != rg {
+			info.converted++
+		}
+		numRows := int(seen.NumRows())
+		chunks := seen.ColumnChunks()
+		info.layouts[i] = make([][]int, len(s.cols))
+		for j := range s.cols {
+			leaf := s.sortingLeaf(j)
+			if leaf != j && info.indexOdd == "" {
+				info.indexOdd = fmt.Sprintf("sorting column %d is leaf column %d", j, leaf)
+			}
+			if numRows == 0 {
+				continue
+			}
+			one := []int{numRows}
+			if leaf < 0 || leaf >= len(chunks) {
+				info.layouts[i][j] = one
+				continue
+			}
+			chunk := chunks[leaf]
+			ci, cerr := chunk.ColumnIndex()
+			oi, oerr := chunk.OffsetIndex()
+			ciOK := cerr == nil && ci != nil && ci.NumPages() != 0
+			oiOK := oerr == nil && oi != nil && ciOK && oi.NumPages() == ci.NumPages()
+			if j == 0 {
+				// newCutLookups (merge_refine.go:116)
+				ok := oiOK
+				for p := 0; ok && p < ci.NumPages(); p++ {
+					if ci.NullPage(p) {
+						ok = false
+					}
+				}
+				info.cuts[i] = ok
+			}
+			if oerr != nil || oi == nil || oi.NumPages() == 0 {
+				info.layouts[i][j] = one
+				continue
+			}
+			if ciOK && oi.NumPages() != ci.NumPages() && info.indexOdd == "" {
+				info.indexOdd = fmt.Sprintf("input %d column %d: %d pages in the column index, %d in the offset index", i, j, ci.NumPages(), oi.NumPages())
+			}
+			var sizes []int
+			for p := 0; p < oi.NumPages(); p++ {
+				end := int64(numRows)
+				if p+1 < oi.NumPages() {
+					end = oi.FirstRowIndex(p + 1)
+				}
+				sizes = append(sizes, int(end-oi.FirstRowIndex(p)))
+			}
+			info.layouts[i][j] = sizes
+		}
+	}
+}
+
+func c09LayoutsTok(layouts [][][]int) string {
+	if len(layouts) == 0 {
+		return "="
+	}
+	ins := make([]string, len(layouts))
+	for i, cols := range layouts {
+		cs := make([]string, len(cols))
+		for j, sizes := range cols {
+			cs[j] = c09NatsTok(sizes)
+		}
+		ins[i] = strings.Join(cs, "|")
+	}
+	return strings.Join(ins, "/")
+}
+
+func c09CutsTok(cuts []bool) string {
+	if len(cuts) == 0 {
+		return "_"
+	}
+	var sb strings.Builder
+	for _, b := range cuts {
+		sb.WriteString(b01(b))
+	}
+	return sb.String()
 }
 
 func c09BuildGroups(s *c09Schema, cs *c09Case) ([]parquet.RowGroup, int, error) {
